@@ -163,13 +163,31 @@ type C19Plugin struct {
 	AfterStop       []C19Call `json:"after_stop,omitempty"`
 }
 
+// C19FailedStart is a stub whose Start() fails after its connection was set up, followed by
+// update calls on that (not started, not registered) stub.
+//
+//	badidx  the runtime rejects the registration: Idx is not two digits (the runtime keeps
+//	        a rejected plugin's connection open)
+//	cfgerr  the plugin's own Configure handler fails
+//	busy    Start's context expires after CtxMs while the runtime's accept loop is busy
+//	        synchronizing another plugin (held back with BlockPluginSync); the calls are
+//	        issued while the runtime is still busy
+type C19FailedStart struct {
+	Mode  string    `json:"mode"`
+	Idx   string    `json:"idx,omitempty"`
+	CtxMs int       `json:"ctx_ms,omitempty"`
+	Calls []C19Call `json:"calls"`
+}
+
 type C19Case struct {
-	Plugins   []C19Plugin  `json:"plugins"`
-	Updaters  []C19Updater `json:"updaters"`
-	Callers   [][]int32    `json:"callers,omitempty"`   // lifecycle events per runtime caller goroutine
-	Unstarted []C19Call    `json:"unstarted,omitempty"` // calls on a stub that was never started
-	SpinUpdUs int          `json:"spin_update_us,omitempty"`
-	SpinHdlUs int          `json:"spin_handler_us,omitempty"`
+	Plugins []C19Plugin `json:"plugins"`
+	// executed one after the other once the up-front plugins have registered
+	FailedStarts []C19FailedStart `json:"failed_starts,omitempty"`
+	Updaters     []C19Updater     `json:"updaters"`
+	Callers      [][]int32        `json:"callers,omitempty"`   // lifecycle events per runtime caller goroutine
+	Unstarted    []C19Call        `json:"unstarted,omitempty"` // calls on a stub that was never started
+	SpinUpdUs    int              `json:"spin_update_us,omitempty"`
+	SpinHdlUs    int              `json:"spin_handler_us,omitempty"`
 	// what UpdateFn answers to an empty update list (those calls carry no tag):
 	// 0 nothing, 1 one marker update as failed, 2 an error
 	EmptyMode int `json:"empty_mode,omitempty"`
@@ -336,6 +354,21 @@ func genC19(t *rapid.T) C19Case {
 	if rapid.IntRange(0, 2).Draw(t, "unstarted") == 0 {
 		c.Unstarted = rapid.SliceOfN(genC19Call(true), 1, 2).Draw(t, "unstarted_calls")
 	}
+	nf := rapid.SampledFrom([]int{0, 0, 0, 1, 1, 2}).Draw(t, "failed_starts")
+	for i := 0; i < nf; i++ {
+		fs := C19FailedStart{Calls: rapid.SliceOfN(genC19Call(false), 1, 2).Draw(t, "failed_start_calls")}
+		switch k := rapid.IntRange(0, 9).Draw(t, "failed_start_mode"); {
+		case k < 5:
+			fs.Mode = "badidx"
+			fs.Idx = rapid.SampledFrom([]string{"x1", "1x", "1", "123", "-1", "ab", "0 ", "٠١"}).Draw(t, "bad_idx")
+		case k < 7:
+			fs.Mode = "cfgerr"
+		default:
+			fs.Mode = "busy"
+			fs.CtxMs = rapid.SampledFrom([]int{50, 100, 200, 300}).Draw(t, "ctx_ms")
+		}
+		c.FailedStarts = append(c.FailedStarts, fs)
+	}
 	return c
 }
 
@@ -378,8 +411,9 @@ type c19Seen struct {
 // c19Issued is one Stub.UpdateContainers call as the issuing goroutine saw it.
 type c19Issued struct {
 	Tag       string   `json:"tag,omitempty"` // "" for empty lists
-	Kind      string   `json:"kind"` // updater | unstarted | configure | synchronize | starting | racestop | afterstop
+	Kind      string   `json:"kind"`          // updater | unstarted | configure | synchronize | starting | racestop | afterstop
 	Where     string   `json:"where"`
+	Mode      string   `json:"mode,omitempty"` // failedstart: how Start() failed
 	Plugin    string   `json:"plugin"`
 	Start     int64    `json:"start"`
 	End       int64    `json:"end"`
@@ -413,13 +447,21 @@ type c19Reg struct {
 	TimedOut bool   `json:"timed_out,omitempty"`
 }
 
+type c19FS struct {
+	Mode     string `json:"mode"`
+	StartErr string `json:"start_err,omitempty"`
+	Started  bool   `json:"started,omitempty"` // Start() succeeded against expectation: not judged
+	Skipped  string `json:"skipped,omitempty"`
+}
+
 type c19Hist struct {
-	Plugins  []*c19Reg    `json:"plugins"`
-	Seen     []c19Seen    `json:"update_fn_calls"`
-	Issued   []*c19Issued `json:"issued"`
-	Requests []c19Span    `json:"requests"`
-	Overlaps []string     `json:"overlaps,omitempty"`
-	Handlers int          `json:"handler_invocations"`
+	FailedStarts []c19FS      `json:"failed_starts,omitempty"`
+	Plugins      []*c19Reg    `json:"plugins"`
+	Seen         []c19Seen    `json:"update_fn_calls"`
+	Issued       []*c19Issued `json:"issued"`
+	Requests     []c19Span    `json:"requests"`
+	Overlaps     []string     `json:"overlaps,omitempty"`
+	Handlers     int          `json:"handler_invocations"`
 }
 
 var c19CaseCtr atomic.Int64
@@ -437,6 +479,8 @@ type c19Exec struct {
 	spans     []c19Span
 	overlaps  []string
 	inUpdate  int
+	fstarts   []c19FS
+	extra     []*fx.Plugin // helper and failed-start plugins, stopped at the end
 	inHandler int
 	handlers  int
 	curUpd    string
@@ -513,15 +557,15 @@ func (x *c19Exec) handler(name, what, tag string) {
 	x.mu.Unlock()
 }
 
-
 const (
-	kUpdater   = "updater"
-	kUnstarted = "unstarted"
-	kConfigure = "configure"
-	kSync      = "synchronize"
-	kStarting  = "starting"
-	kRaceStop  = "racestop"
-	kAfterStop = "afterstop"
+	kUpdater     = "updater"
+	kUnstarted   = "unstarted"
+	kConfigure   = "configure"
+	kSync        = "synchronize"
+	kStarting    = "starting"
+	kRaceStop    = "racestop"
+	kAfterStop   = "afterstop"
+	kFailedStart = "failedstart"
 )
 
 // c19Live is a connected plugin.
@@ -601,10 +645,95 @@ func (x *c19Exec) connect(i int, spec C19Plugin) *c19Live {
 	return l
 }
 
-// issue performs one UpdateContainers call on s. Every kind but the plain updaters' runs
-// under a 10 s watchdog (the call is abandoned, not cancelled, when it trips).
+// failedStart runs one C19FailedStart; it returns false if the fixture broke.
+func (x *c19Exec) failedStart(fi int, fs C19FailedStart) bool {
+	rec := c19FS{Mode: fs.Mode}
+	defer func() {
+		x.mu.Lock()
+		x.fstarts = append(x.fstarts, rec)
+		x.mu.Unlock()
+	}()
+	l, _, _ := x.newPlugin(200+fi, C19Plugin{Idx: "60"})
+	ctx := context.Background()
+	var unblock func() bool
+	switch fs.Mode {
+	case "badidx":
+		if validIdx(fs.Idx) || fs.Idx == "" {
+			rec.Skipped = "index is valid"
+			return true
+		}
+		l.p.Idx = fs.Idx
+	case "cfgerr":
+		l.p.OnConfigure = func(context.Context, string, string, string) (api.EventMask, error) {
+			return 0, errors.New("configuration refused by the plugin")
+		}
+	case "busy":
+		if fs.CtxMs < 10 || fs.CtxMs > 2000 {
+			rec.Skipped = "context timeout out of range"
+			return true
+		}
+		// keep the accept loop busy: a helper plugin gets configured, then its
+		// synchronization waits for the block to be lifted
+		b := x.rt.A.BlockPluginSync()
+		h, synced, closed := x.newPlugin(100+fi, C19Plugin{Idx: "55"})
+		entered := make(chan struct{})
+		h.p.OnConfigure = func(context.Context, string, string, string) (api.EventMask, error) {
+			close(entered)
+			return 0, nil
+		}
+		x.extra = append(x.extra, h.p)
+		res := make(chan connection, 1)
+		go func() { res <- connectAndWait(x.rt, h.p, synced, closed, false) }()
+		unblock = func() bool {
+			b.Unblock()
+			cn := <-res
+			return cn.startErr == nil && !cn.refused && !cn.timedOut
+		}
+		select {
+		case <-entered:
+		case <-time.After(20 * time.Second):
+			unblock()
+			rec.Skipped = "helper plugin was not configured"
+			return false
+		}
+		var cancel context.CancelFunc
+		ctx, cancel = context.WithTimeout(ctx, time.Duration(fs.CtxMs)*time.Millisecond)
+		defer cancel()
+	default:
+		rec.Skipped = "unknown mode"
+		return true
+	}
+	x.extra = append(x.extra, l.p)
+	if err := l.p.NewStub(x.rt.Socket, nil); err != nil {
+		rec.Skipped = "stub: " + shortErr(err)
+		if unblock != nil {
+			unblock()
+		}
+		return false
+	}
+	err := l.p.Stub.Start(ctx)
+	rec.StartErr = shortErr(err)
+	if err == nil {
+		rec.Started = true // not this property's finding; no calls
+	} else {
+		for ci, call := range fs.Calls {
+			x.issueMode(l.p.Stub, l.p.Name, kFailedStart, fs.Mode, fmt.Sprintf("f%dc%d", fi, ci), call, false)
+		}
+	}
+	if unblock != nil {
+		return unblock()
+	}
+	return true
+}
+
 func (x *c19Exec) issue(s stub.Stub, plugin, kind, where string, call C19Call, nilForEmpty bool) {
-	is := &c19Issued{Kind: kind, Where: where, Plugin: plugin, N: len(call.Updates), call: call}
+	x.issueMode(s, plugin, kind, "", where, call, nilForEmpty)
+}
+
+// issueMode performs one UpdateContainers call on s. Every kind but the plain updaters' runs
+// under a 10 s watchdog (the call is abandoned, not cancelled, when it trips).
+func (x *c19Exec) issueMode(s stub.Stub, plugin, kind, mode, where string, call C19Call, nilForEmpty bool) {
+	is := &c19Issued{Kind: kind, Mode: mode, Where: where, Plugin: plugin, N: len(call.Updates), call: call}
 	if len(call.Updates) > 0 {
 		is.Tag = fmt.Sprintf("k%d%s", x.no, where)
 	}
@@ -617,7 +746,7 @@ func (x *c19Exec) issue(s stub.Stub, plugin, kind, where string, call C19Call, n
 		arg = nil // nil and empty lists are both "no updates"
 	}
 	x.mu.Lock()
-	if is.Tag != "" && kind != kUnstarted {
+	if is.Tag != "" && kind != kUnstarted && kind != kFailedStart {
 		x.plans[is.Tag] = call
 	}
 	x.issued = append(x.issued, is)
@@ -727,6 +856,16 @@ func runC19Once(c C19Case) (ev.Outcome, int) {
 	if err := idle.p.NewStub(rt.Socket, nil); err != nil {
 		rt.Stop()
 		return ev.Outcome{Overloaded: true, Classes: []string{"infra:" + shortErr(err)}}, 1
+	}
+
+	// stubs whose Start() fails late, and updates on them
+	for fi, fs := range c.FailedStarts {
+		if broken {
+			break
+		}
+		if !x.failedStart(fi, fs) {
+			broken = true
+		}
 	}
 
 	// phase 2: updaters, runtime callers, the unstarted stub and late registrations together
@@ -870,10 +1009,15 @@ func runC19Once(c C19Case) (ev.Outcome, int) {
 			l.p.Stub.Stop()
 		}
 	}
+	for _, p := range x.extra {
+		if p.Stub != nil {
+			p.Stub.Stop()
+		}
+	}
 	rt.Stop()
 
 	x.mu.Lock()
-	h := &c19Hist{Seen: x.seen, Issued: x.issued, Requests: x.spans, Overlaps: x.overlaps, Handlers: x.handlers}
+	h := &c19Hist{FailedStarts: x.fstarts, Seen: x.seen, Issued: x.issued, Requests: x.spans, Overlaps: x.overlaps, Handlers: x.handlers}
 	x.mu.Unlock()
 	for _, l := range live {
 		if l != nil {
@@ -898,13 +1042,14 @@ func c19EqualLists(a, b []*api.ContainerUpdate) (bool, string) {
 }
 
 var c19KindText = map[string]string{
-	kUpdater:   "from a goroutine of the running plugin",
-	kConfigure: "from inside the plugin's Configure handler",
-	kSync:      "from inside the plugin's Synchronize handler",
-	kStarting:  "from another goroutine while the plugin's Start() was waiting for Configure to return",
-	kRaceStop:  "concurrently with Stop()",
-	kAfterStop: "after Stop() returned",
-	kUnstarted: "on a never-started stub",
+	kUpdater:     "from a goroutine of the running plugin",
+	kConfigure:   "from inside the plugin's Configure handler",
+	kSync:        "from inside the plugin's Synchronize handler",
+	kStarting:    "from another goroutine while the plugin's Start() was waiting for Configure to return",
+	kRaceStop:    "concurrently with Stop()",
+	kAfterStop:   "after Stop() returned",
+	kUnstarted:   "on a never-started stub",
+	kFailedStart: "on a stub whose Start() had failed",
 }
 
 // c19Strict judges a call that must have been delivered: (1) exactly once, unchanged,
@@ -1012,12 +1157,30 @@ func judgeC19(c C19Case, h *c19Hist) (ev.Outcome, int) {
 				return fail(atOnce, "an update sent on a never-started stub reached the runtime's UpdateFn (%s)", is.Tag)
 			}
 			continue
+		case kFailedStart:
+			// not started, not registered: an error, promptly (checked above), and the
+			// runtime's callback is never reached
+			classes["failed-start"] = true
+			classes["failed-start:"+is.Mode] = true
+			if is.err == nil {
+				return fail(atOnce, "UpdateContainers on a stub whose Start() had failed (%s) returned success (failed list %v) instead of an error", is.Mode, is.FailedIDs)
+			}
+			if len(ss) > 0 {
+				return fail(atOnce, "an update sent on a stub whose Start() had failed (%s) reached the runtime's UpdateFn %d times (%s; the call returned %q)", is.Mode, len(ss), is.Tag, is.Err)
+			}
+			if len(is.failed) != 0 {
+				return fail(atOnce, "UpdateContainers on a stub whose Start() had failed (%s) returned a failed list %v", is.Mode, is.FailedIDs)
+			}
+			continue
 		case kRaceStop, kAfterStop:
 			// the session is going or gone: the call must come back (checked above); it may
 			// have been delivered or not, but not twice, and a success must be a real one
 			classes[is.Kind] = true
 			if len(ss) > 1 {
 				return fail(atOnce, "update call %s issued %s reached the runtime's UpdateFn %d times", is.Tag, c19KindText[is.Kind], len(ss))
+			}
+			if is.Kind == kAfterStop && (is.err == nil || len(ss) > 0) {
+				return fail(atOnce, "update call %s issued after Stop() had returned was not refused: err=%q, reached UpdateFn %d times", is.Tag, is.Err, len(ss))
 			}
 			switch {
 			case is.err == nil:
@@ -1083,6 +1246,11 @@ func judgeC19(c C19Case, h *c19Hist) (ev.Outcome, int) {
 	}
 	if emptySeen != emptyIssued {
 		return fail(atOnce, "%d empty update lists were sent, UpdateFn was called %d times with an empty list", emptyIssued, emptySeen)
+	}
+	for _, f := range h.FailedStarts {
+		if f.Started {
+			classes["failed-start:start-succeeded:"+f.Mode] = true
+		}
 	}
 	// every registration of this property is well-formed; one that did not complete although
 	// no clause above was violated is not this property's finding
